@@ -1,6 +1,6 @@
 (* C09 — the 300-byte limit: never exceeded, size() exact. *)
-Require Import Enr.Bytes Enr.Consts Enr.Rlp Enr.SortedMap Enr.Keccak Enr.Record Enr.Update.
-Require Import EnrProofs.Thm_Decode EnrProofs.Thm_Update.
+Require Import Enr.Bytes Enr.Consts Enr.Rlp Enr.SortedMap Enr.Keccak Enr.Record Enr.Update Enr.Spec Enr.Toy.
+Require Import EnrProofs.Thm_Decode EnrProofs.Thm_Update EnrProofs.RefineLemmas EnrProofs.Thm_Refine EnrProofs.Thm_Size.
 Open Scope N_scope.
 
 Theorem size_is_encoding_length : forall r, size r = lenN (encode r).
@@ -18,3 +18,45 @@ Theorem step_size : forall (c : crypto) kt r o k sg x r',
   step c kt r o k sg = (Ok x, r') -> size r' <= MAX_ENR_SIZE.
 Proof. exact Thm_Update.step_size. Qed.
 Print Assumptions step_size.
+
+(* encoded sizes are monotone in the sequence number (the first size check uses the old number) *)
+Theorem enc_uint_len_mono : forall n n', n <= n' -> n' < 2 ^ 64 -> lenN (enc_uint n) <= lenN (enc_uint n').
+Proof. exact Thm_Size.enc_uint_len_mono. Qed.
+Print Assumptions enc_uint_len_mono.
+
+Theorem size_mono : forall sq sq' nd nd' m s s',
+  sq <= sq' -> sq' < 2 ^ 64 -> lenN (enc_string s) <= lenN (enc_string s') ->
+  size (cand sq nd m s) <= size (cand sq' nd' m s').
+Proof. exact Thm_Size.size_mono. Qed.
+Print Assumptions size_mono.
+
+(* equal-length signatures (the built-in 64-byte schemes): refused for size exactly when the result
+   (new pairs, incremented sequence number, new signature) would exceed 300 bytes *)
+Theorem step_refused_iff : forall (c : crypto) kt r o k sg s,
+  seq r < 2 ^ 64 -> seq r <> U64_MAX -> (forall n, o <> OSetSeq n) ->
+  check_list c (checked_inserts o) = Ok tt ->
+  check_keyed_by c kt (spec_pairs o k (content r)) k = Ok tt ->
+  id_is_v4 (cand (seq r + 1) (nid r) (spec_pairs o k (content r)) (sig r)) = true ->
+  sg (signed_payload_of (seq r + 1) (spec_pairs o k (content r))) = Some s ->
+  lenN (sig r) = lenN s -> 2 <= lenN s ->
+  (fst (step c kt r o k sg) = Err EExceedsMaxSize <->
+   MAX_ENR_SIZE < size (cand (seq r + 1) (node_id_of (sk_pub k)) (spec_pairs o k (content r)) s)).
+Proof. exact Thm_Size.step_refused_iff. Qed.
+Print Assumptions step_refused_iff.
+
+(* the builder: refuses every result above 300 bytes, nothing at or below 292, returns at most 300 *)
+Theorem build_refusal : forall (c : crypto) kt sq calls k sg s nd,
+  let m := with_key (sm_insert k_id (enc_string v4) (fold_left apply_bcall calls [])) k in
+  check_all c (fold_left apply_bcall calls []) = Ok tt ->
+  check_keyed_by c kt m k = Ok tt ->
+  sg (signed_payload_of sq m) = Some s ->
+  (build c kt sq calls k sg = Err EExceedsMaxSize <-> MAX_ENR_SIZE < lenN (signed_payload_of sq m) + lenN s + 8) /\
+  (MAX_ENR_SIZE < size (cand sq nd m s) -> build c kt sq calls k sg = Err EExceedsMaxSize) /\
+  (build c kt sq calls k sg = Err EExceedsMaxSize -> 292 < size (cand sq nd m s)) /\
+  (forall r, build c kt sq calls k sg = Ok r -> r = cand sq (node_id_of (sk_pub k)) m s /\ size r <= MAX_ENR_SIZE).
+Proof. exact Thm_Size.build_refusal. Qed.
+Print Assumptions build_refusal.
+
+(* non-vacuity: the toy record is 61 bytes *)
+Example toy_size : match toy_built with Ok r => size r = lenN (encode r) /\ size r <= 300 | _ => False end.
+Proof. vm_compute. split; [reflexivity | discriminate]. Qed.
